@@ -349,39 +349,59 @@ def run(ctx):
     except Skip:
         pass
 
-    # ---- R17.4 line format loop nest
+    # ---- R17.4 line format loop nest (THIR paths: events > paths > kinds, one line per pair, nothing ends a loop early)
     try:
         sf = ctx.anchor_fn("R17.4", "watchexec_cli::emits::events_to_simple_format")
-        cfg = CFG(sf)
-        writes = call_sites(sf, "core::fmt::Write::write_fmt")
-        ctx.floor("R17.4", "writeln! sites", len(writes), 2)
-        nxt = call_sites(sf, "core::iter::traits::iterator::Iterator::next")
-        ctx.floor("R17.4", "loops (events, paths, kinds)", len(nxt), 3)
-        if len(nxt) >= 3 and len(writes) >= 2:
-            nb = sorted(bi for bi, _ in nxt)
-            # nesting by dominance: events.next dominates paths.next dominates kinds.next
-            order = sorted(nb, key=lambda b: len(cfg.dominators_of(b)))
-            ev, pa, ki = order[0], order[1], order[2]
-            tys = {bi: t.callee.full for bi, t in nxt}
-            ctx.require("Event" in tys[ev] and cfg.dominates(ev, pa) and cfg.dominates(pa, ki), "R17.4", "loop-nest",
-                        "loops nest events > paths > kinds", sf.loc(sf.line), detail=str([tys[ev][:80], tys[pa][:80], tys[ki][:80]]))
-            kind_w = [b for b, _ in writes if cfg.dominates(ki, b)]
-            other_w = [b for b, _ in writes if not cfg.dominates(ki, b)]
-            ctx.require(len(kind_w) == 1 and len(other_w) == 1, "R17.4", "one-write-per-pair",
-                        "one write inside the kinds loop, one `other:` write for kind-less events", sf.loc(sf.line))
-            if other_w:
-                emp = call_sites(sf, "alloc::vec::Vec::is_empty")
-                okg = False
-                for bi, t in emp:
-                    sw = sf.blocks[t.target].term
-                    if sw.kind == "switch":
-                        false_t = [tt for v, tt in sw.cases if v == 0][0]
-                        if not cfg.reaches(false_t, other_w[0], avoid=[pa]) and cfg.reaches(sw.otherwise, other_w[0], avoid=[pa]):
-                            okg = True
-                        # and after the other-write the kinds loop is skipped for this path
-                        if okg:
-                            okg = not cfg.reaches(other_w[0], ki, avoid=[pa])
-                ctx.require(okg, "R17.4", "other-only-when-no-kind",
-                            "the `other:` line is written only when the event has no kind, and then the kinds loop is skipped", sf.loc(sf.line))
+        en4 = pathx.Enum(interesting=lambda d_: strip_generics(d_).endswith(("Write::write_fmt", "Vec::is_empty")))
+        evl = set()
+        for q in en4.paths(thir.root(sf)):
+            for e in q.ev:
+                if e[0] == "loop" and e[2] == "for events":
+                    evl |= set(e[1])
+        ctx.floor("R17.4", "per-event iterations of events_to_simple_format", len(evl), 1)
+        bad4 = []
+        n_kind = n_other = 0
+        for it in evl:
+            if ("loop-break",) in it:
+                bad4.append("the event loop stops early")
+            pl = [e for e in it if e[0] == "loop"]
+            if len(pl) != 1 or not pl[0][2].startswith("for Iterator::map(Event::paths(event)"):
+                bad4.append("no single loop over the event's paths (%s)" % [e[2] for e in pl])
+                continue
+            top_w = [e for e in it if e[0] == "call" and strip_generics(e[1]).endswith("Write::write_fmt")]
+            if top_w:
+                bad4.append("a line is written outside the per-path loop")
+            for pit in pl[0][1]:
+                nokind = None
+                for e in pit:
+                    if e[0] == "branch":
+                        if implies(e[1], e[2], "Vec::is_empty(feks)", True):
+                            nokind = True
+                        elif implies(e[1], e[2], "Vec::is_empty(feks)", False):
+                            nokind = False
+                w_here = [e for e in pit if e[0] == "call" and strip_generics(e[1]).endswith("Write::write_fmt")]
+                kl = [e for e in pit if e[0] == "loop"]
+                brk = ("loop-break",) in pit
+                if brk:
+                    bad4.append("the path loop stops at a path (%s): the remaining paths of the event get no line" % ("kind-less event" if nokind else "event with kinds"))
+                if nokind is True:
+                    n_other += 1
+                    if len(w_here) != 1 or kl:
+                        bad4.append("a kind-less pathed event writes %d line(s) per path and %s the kinds loop" % (len(w_here), "enters" if kl else "skips"))
+                elif nokind is False:
+                    n_kind += 1
+                    okk = len(kl) == 1 and kl[0][2] == "for feks" and not w_here
+                    if okk:
+                        for kit in kl[0][1]:
+                            wk = [e for e in kit if e[0] == "call" and strip_generics(e[1]).endswith("Write::write_fmt")]
+                            if len(wk) != 1 or ("loop-break",) in kit:
+                                okk = False
+                    if not okk:
+                        bad4.append("an event with kinds does not write exactly one line per (path, kind)")
+                else:
+                    bad4.append("a path iteration does not test whether the event has kinds")
+        ctx.require(not bad4 and n_kind >= 1 and n_other >= 1, "R17.4", "line-per-path-and-kind", "one line per (event, path, kind); one `other:` line per path of a kind-less event; "
+                    "loops nest events > paths > kinds and none is left early", sf.loc(sf.line), detail="; ".join(sorted(set(bad4)))[:400],
+                    fail="the line format no longer writes one line per (event, path, kind): " + "; ".join(sorted(set(bad4)))[:300])
     except Skip:
         pass
